@@ -99,11 +99,15 @@ Section C15.
 
   (** scalar strengths (scaling of shape (L,)), L > 1: scalars, 1-element
       clocks and leaves whose last axis is not L come back unchanged *)
-  Theorem C15_clocks_untouched (fexp : F -> F) L (lw : nat -> nat) (a c : F) p (x : arr) :
+  Theorem C15_clocks_untouched (fexp : F -> F) L (lw : nat -> nat) (a c s r : F) p order (x : arr) :
     (1 < L)%nat ->
     (fst x = [] \/ fst x = [1%nat] \/ exists pre d, fst x = pre ++ [d] /\ d <> L) ->
-    exponential_filter fexp L lw (scalar_arr a) c p [x] = Some [x].
-  Proof. intros HL. apply exponential_filter_nonspectral. lia. Qed.
+    exponential_filter fexp L lw (scalar_arr a) c p [x] = Some [x] /\
+    horizontal_diffusion_filter fexp L lw (scalar_arr s) r order [x] = Some [x].
+  Proof.
+    intros HL Hx. split;
+      [apply exponential_filter_nonspectral|apply horizontal_diffusion_filter_nonspectral]; auto; lia.
+  Qed.
 
   (** broadcast lemma: common leading axis, equal ranks *)
   Theorem C15_rescale_slicewise (T : nat) (ss ls : list nat) (s x : list nat -> F) i idx :
